@@ -11,7 +11,8 @@ import time
 from .common import (VERIF, REPO, SCRATCH, REPLAY_DIR, NCPU, log, run, repo_fingerprint, known_entries,
                      write_evidence)
 
-ENGINE_K = os.path.join(VERIF, "engine_k")
+# VERIF_ENGINE_K: used only by tools/mutant_run.sh to evaluate a patched COPY of the repository without touching /repo
+ENGINE_K = os.environ.get("VERIF_ENGINE_K", os.path.join(VERIF, "engine_k"))
 OB_RE = re.compile(r"^\s*//\s*@ob\s+(\S+)\s+(\S+)\s+(\S+)\s*(.*)$")
 KV_RE = re.compile(r'(\w+)=("([^"]*)"|\S+)')
 
@@ -56,7 +57,7 @@ def discover(prop=None):
                     attrs = {}
                     for k, v, q in KV_RE.findall(m.group(4)):
                         attrs[k] = q if v.startswith('"') else v
-                    ob = Ob(m.group(1), m.group(2), crate, module, m.group(3), attrs, p)
+                    ob = Ob(m.group(1), m.group(2), crate, attrs.get("mod", module), m.group(3), attrs, p)
                     if prop is None or ob.prop == prop:
                         obs.append(ob)
     return obs
@@ -95,9 +96,23 @@ def build_crate(crate, logdir):
     return ok, dt, out
 
 
-def crate_flags(crate):
+def crate_flags(crate, playback=False):
     f = os.path.join(ENGINE_K, crate, "kani_flags")
-    return open(f).read().strip() if os.path.exists(f) else ""
+    flags = open(f).read().strip() if os.path.exists(f) else ""
+    if playback:
+        # `cargo kani playback` accepts only -Z flags
+        toks = flags.split()
+        keep = []
+        i = 0
+        while i < len(toks):
+            if toks[i] == "-Z" and i + 1 < len(toks):
+                if toks[i + 1] != "unstable-options":
+                    keep += toks[i:i + 2]
+                i += 2
+            else:
+                i += 1
+        flags = " ".join(keep)
+    return flags
 
 
 CHECK_RE = re.compile(r"^Check (\d+): (\S+)\n\t - Status: (\S+)\n\t - Description: \"(.*)\"\n\t - Location: (.*)$", re.M)
@@ -175,7 +190,7 @@ def run_harness(ob, logdir):
             sorted(set(f["description"] + " @ " + f["location"] for f in unwinding + unsupported))[:4])
     elif real_fail:
         r["class"] = "fail"; r["why"] = "; ".join(sorted(set(f["description"] for f in real_fail))[:6])
-    elif "Out of memory" in out or "std::bad_alloc" in out:
+    elif "Out of memory" in out or "std::bad_alloc" in out or "run out of memory" in out:
         r["class"] = "inconclusive"; r["why"] = "solver ran out of memory (limit %g GB)" % ob.mem
     elif r["verdict"] == "FAILED" and not expected_only:
         r["class"] = "inconclusive"; r["why"] = "FAILED without a failed check that could be parsed"
@@ -205,17 +220,19 @@ def replay(ob, tests, tag, profile_release=False):
             shutil.copytree(os.path.join(ENGINE_K, sub), os.path.join(work, sub))
         src = os.path.join(work, ob.crate, os.path.relpath(ob.src, os.path.join(ENGINE_K, ob.crate)))
         with open(src, "a") as fh:
-            fh.write("\n#[cfg(test)]\nmod verif_playback {\n    use super::*;\n")
+            fh.write("\n#[cfg(test)]\nmod verif_playback {\n    #[allow(unused_imports)]\n    use super::*;\n    #[allow(unused_imports)]\n    use crate::%s::*;\n" % ob.module)
             for t in tests:
                 fh.write(t["src"])
             fh.write("}\n")
         env = {"CARGO_TARGET_DIR": os.path.join(SCRATCH, "k", ob.crate + "_playback"), "RUST_BACKTRACE": "0"}
         # one process per test: the symbolic kernel keeps its state in statics
         for t in tests:
-            cmd = ("cargo kani playback -Z concrete-playback %s -- %s --nocapture --test-threads 1"
-                   % (crate_flags(ob.crate), t["fn"]))
+            cmd = ("cargo kani playback -Z concrete-playback %s --lib -- %s --nocapture --test-threads 1"
+                   % (crate_flags(ob.crate, playback=True), t["fn"]))
             rc, out, dt, to = run(cmd, cwd=os.path.join(work, ob.crate), timeout=900, env=env)
-            if re.search(r"test result: FAILED\. 0 passed; 1 failed", out):
+            if "concrete_playback.rs" in out and "concrete values left over" in out:
+                st = "mismatch"   # the native run consumed fewer symbolic values than the solver's trace: not a reproduction
+            elif re.search(r"test result: FAILED\. 0 passed; 1 failed", out):
                 st = "FAILED"
             elif re.search(r"test result: ok\. 1 passed", out):
                 st = "ok"
@@ -228,7 +245,9 @@ def replay(ob, tests, tag, profile_release=False):
             hist = "\n".join(l for l in out.splitlines() if l.startswith(("descriptor table:", "  call ", "trace:")))
             if hist:
                 msg += "\n" + hist[:3000]
-            results.append((t, st == "FAILED", msg if msg else ("test result: %s; tail: %s" % (st, out[-300:]))))
+            desc = (t.get("description") or "").strip('"')
+            panicked_with_it = st != "mismatch" and "panicked at" in out and desc and desc in out
+            results.append((t, st == "FAILED" or bool(panicked_with_it), msg if msg else ("test result: %s; tail: %s" % (st, out[-300:]))))
     finally:
         shutil.rmtree(work, ignore_errors=True)
     return results
